@@ -24,6 +24,25 @@ def correspondence(ctx):
             cases.append(f'rules|{prof}|{rule}|{h}')
         cases.append(f'allows.id|{h}')
         cases.append(f'allows.ff|{h}')
+    # long inputs: block-wise / chunked fast paths (8, 16, 32, 64 bytes ...) fail only at particular byte lengths and
+    # alignments: an ASCII run of EVERY length 0..130 (thorough 0..600) followed by a 2-, 3- or 4-byte character, a cased or
+    # wide one, through every rule and profile operation; plus random long strings
+    fill = [0x62]
+    for n in list(range(0, 131 if ctx.tier == 'quick' else 601)) + [n_ + d for n_ in getattr(ctx, 'extra_nums', []) if 100 < n_ <= 70000 for d in (-1, 0, 1)]:
+        for tail in ([0xE9], [0x4E16], [0x20000], [0x4E16, 0x41], [0xFF21, 0x62], [0x41, 0x4E16], [0xA0, 0x62], [0x3000]):
+            h = hexs(fill * n + tail)
+            for prof, rule in (('um', 'width'), ('um', 'case'), ('um', 'norm'), ('um', 'dir'), ('op', 'addmap'), ('nick', 'addmap'), ('nick', 'norm')):
+                cases.append(f'rules|{prof}|{rule}|{h}')
+            if n % 3 == 0:
+                for prof in ('um', 'up', 'op', 'nick'):
+                    cases.append(f'prof|{prof}|enforce|f|b|{h}|')
+                cases.append(f'allows.ff|{h}')
+    for s_ in long_strings(ctx, alpha, 40 if ctx.tier == 'quick' else 1500):
+        h = hexs(s_)
+        for prof in ('um', 'up', 'op', 'nick'):
+            cases.append(f'prof|{prof}|enforce|f|b|{h}|')
+        for prof, rule in (('um', 'width'), ('um', 'case'), ('op', 'addmap'), ('nick', 'addmap')):
+            cases.append(f'rules|{prof}|{rule}|{h}')
     # nickname space rule: the byte-length x position combinations the property names, one length further
     sp = [0x61, 0xE9, 0x65E5, 0x20000, 0x20, 0xA0, 0x3000]
     for s in all_strings(sp, maxlen + 2, maxlen + 1):
